@@ -100,6 +100,10 @@ def parseCase (ws : List String) : Option (Input × Output) := do
             nOpaque := ((kvOf rest "opq").bind String.toNat?).getD 1 }, o)
   | _ => none
 
+/-- modes where the value arrives in an environment variable over an already loaded Config (`cur`):
+section `ApplyEnvVars` (`env`, `envalt`), `Manager.ApplyEnvVars` (`menv`), `Manager.LoadJSONFileAndEnv` (`menvfile`) -/
+def isEnvMode (m : String) : Bool := m == "env" || m == "envalt" || m == "menv" || m == "menvfile"
+
 /-- does the implementation's observation agree with the model's prediction for the row? -/
 def modelCheck (i : Input) (o : Output) : Option String :=
   match i.row with
@@ -108,12 +112,12 @@ def modelCheck (i : Input) (o : Output) : Option String :=
     -- the translator's default against the default the running code produces
     if f.dflt != .unknown && f.dflt != .nil && f.dflt != .empty && i.deff != "-" && showConst f.dflt != i.deff then
       some ("default-mismatch model=" ++ showConst f.dflt)
-    else if f.load == .codecAlways && i.vc == "mal" && i.noise == "-" && i.mode != "env" && i.mode != "envalt" then
+    else if f.load == .codecAlways && i.vc == "mal" && i.noise == "-" && !isEnvMode i.mode then
       -- a text the parser rejects (or a wrong JSON type) is refused, never replaced by a default
       (if o.res == "err" then none else some "model=reject:unparsable")
     else if i.noise != "-" || i.vc == "mal" || i.vc == "unset" then none
     else
-      let cur := if i.mode == "env" || i.mode == "envalt" then i.cur else i.deff
+      let cur := if isEnvMode i.mode then i.cur else i.deff
       let big := match parseConst i.want with
         | .int n => n ≥ 2147483648 || n ≤ -2147483648
         | _ => false
@@ -316,6 +320,196 @@ def answer (ws : List String) : String :=
 
 end Val
 
+/-! ### suite `ident`: the real config.Identity against the `Ident` model; config.DisplayJSON against `Disp` -/
+namespace Ident
+
+def parseId (t : String) : Option (Option IdTok) :=
+  if t == "-" then some none
+  else if t == "ibad" || t == "iempty" || t == "iabs" then some (some .bad)
+  else if t.startsWith "i" then ((t.drop 1).toString.toNat?).map (fun n => some (.id n))
+  else none
+
+def parseKey (t : String) : Option (Option KeyTok) :=
+  if t == "-" then some none
+  else if t == "kb64" then some (some .badB64)
+  else if t == "kbytes" || t == "kempty" || t == "kabs" then some (some .badKey)
+  else if t.startsWith "k" then ((t.drop 1).toString.toNat?).map (fun n => some (.key n))
+  else none
+
+def parseOp (t : String) : Option Op :=
+  if t == "G" then some (.load .garbage)
+  else match t.splitOn ":" with
+    | [k, i, key] =>
+      (match parseId i, parseKey key with
+       | some ei, some ek =>
+         if k == "E" then some (.env ei ek)
+         else if k == "L" || k == "Lf" then
+           (match ei, ek with
+            | some a, some b => some (.load (.obj a b))
+            | _, _ => none)
+         else none
+       | _, _ => none)
+    | _ => none
+
+def showIdx : Option Nat → String
+  | some n => toString n
+  | none => "-"
+
+def showIdTok : IdTok → String
+  | .id n => "i" ++ toString n
+  | .bad => "iempty"
+
+def showKeyTok : KeyTok → String
+  | .key n => "k" ++ toString n
+  | _ => "kbad"
+
+def showObs (o : Obs) : String :=
+  "res=" ++ ",".intercalate o.res ++ " sid=" ++ o.sid ++ " skey=" ++ o.skey ++ " valid=" ++ (if o.valid then "1" else "0") ++
+    " saved=" ++ o.saved ++ " perm=" ++ o.perm ++ " rres=" ++ o.rres ++ " rid=" ++ o.rid ++ " rkey=" ++ o.rkey
+
+def predictObs (opsTok : List String) (ops : List Op) : Obs :=
+  let r := run fresh ops
+  let s := r.1
+  let sv := save s
+  let rl := sv.map (fun p => load fresh (.obj p.1 p.2))
+  { ops := opsTok, res := r.2.map (fun b => if b then "ok" else "err"),
+    sid := showIdx s.id, skey := showIdx s.key, valid := valid s,
+    saved := match sv with | none => "-" | some (i, k) => showIdTok i ++ ":" ++ showKeyTok k,
+    perm := if sv.isSome then "600" else "-",
+    rres := match rl with | none => "-" | some (_, ok) => if ok then "ok" else "err",
+    rid := match rl with | none => "-" | some (m, _) => showIdx m.id,
+    rkey := match rl with | none => "-" | some (m, _) => showIdx m.key }
+
+def parseObs (ws : List String) : Option Obs := do
+  let (pre, post) ← splitArrow ws
+  let ops ← kvOf pre "ops"
+  let res ← kvOf post "res"
+  let g := fun k => (kvOf post k).getD "?"
+  let o : Obs := { ops := ops.splitOn ",", res := res.splitOn ",", sid := g "sid", skey := g "skey", valid := g "valid" == "1",
+                   saved := g "saved", perm := g "perm", rres := g "rres", rid := g "rid", rkey := g "rkey" }
+  if o.ops.length != o.res.length then none else pure o
+
+def answer (ws : List String) : String :=
+  match parseObs ws with
+  | none => "bad-case"
+  | some o =>
+    let lastKind := match o.ops.getLast? with
+      | some t => (t.takeWhile (fun c => c != ':')).toString
+      | none => "-"
+    let arm := "ident-" ++ toString o.ops.length ++ "-" ++ lastKind ++ "-" ++ o.res.getLast?.getD "-"
+    let failed := (clauses o).filter (fun c => !c.2)
+    if !failed.isEmpty then "propfail " ++ ",".intercalate (failed.map (·.1)) ++ " arm=" ++ arm
+    else match o.ops.mapM parseOp with
+      | none => "bad-case op"
+      | some ops =>
+        let p := predictObs o.ops ops
+        if showObs p != showObs o then "diff arm=" ++ arm ++ " model=" ++ (showObs p).replace " " ";"
+        else "ok arm=" ++ arm ++ (if o.res.all (· != "ok") then " trivial" else "")
+
+def rlibAnswer (ws : List String) : String :=
+  match splitArrow ws with
+  | none => "bad-case"
+  | some (pre, post) =>
+    match kvOf pre "id", kvOf pre "key", kvOf pre "addr", kvOf post "res" with
+    | some idT, some keyT, some addr, some res =>
+      let g := fun k => (kvOf post k).getD "?"
+      let arm := "rlib-" ++ idT ++ "-" ++ keyT ++ "-" ++ addr ++ "-" ++ res
+      let failed := (rlibClauses idT keyT res (g "sid") (g "skey") (g "valid" == "1") (g "saved") (g "rres")).filter (fun c => !c.2)
+      if !failed.isEmpty then "propfail " ++ ",".intercalate (failed.map (·.1)) ++ " arm=" ++ arm
+      else match parseId idT, parseKey keyT with
+        | some i, some k =>
+          let exp := match restLoad i k (addr == "1") with
+            | none => "res=err;sid=-;skey=-"
+            | some s => "res=ok;sid=" ++ showIdx s.id ++ ";skey=" ++ showIdx s.key
+          if exp != "res=" ++ res ++ ";sid=" ++ g "sid" ++ ";skey=" ++ g "skey" then "diff arm=" ++ arm ++ " model=" ++ exp
+          else "ok arm=" ++ arm
+        | _, _ => "bad-case"
+    | _, _, _, _ => "bad-case"
+
+end Ident
+
+namespace Disp
+
+def parseLeaf (t : String) : Option LeafObs :=
+  match t.splitOn "=" with
+  | [p, obs] => some { path := (p.splitOn ".").map (fun sg => if sg.endsWith "^" then ((sg.dropEnd 1).toString, true) else (sg, false)), obs := obs }
+  | _ => none
+
+/-- what the model shows for this leaf: the mask for its top-level field, or its value -/
+def predicted (l : LeafObs) : String :=
+  let leaf : Leaf := { path := l.path.map (fun p => { name := p.1, hidden := p.2 }), val := "v" }
+  match display [leaf] with
+  | [(_, t)] => if t == maskText then "m" else "s"
+  | _ => "x"
+
+def answer (ws : List String) : String :=
+  match splitArrow ws with
+  | none => "bad-case"
+  | some (pre, post) =>
+    match kvOf post "res", kvOf post "leaves" with
+    | some res, some lv =>
+      match (lv.splitOn ",").mapM parseLeaf with
+      | none => "bad-case leaf"
+      | some ls =>
+        let arm := "disp-" ++ (pre.head?.getD "-")
+        let failed := (clauses res ls).filter (fun c => !c.2)
+        if !failed.isEmpty then "propfail " ++ ",".intercalate (failed.map (·.1)) ++ " arm=" ++ arm
+        else if res != "ok" then "diff arm=" ++ arm ++ " model=ok"
+        else match ls.find? (fun l => (l.obs.takeWhile (· != '!')).toString != predicted l) with
+          | some l => "diff arm=" ++ arm ++ " model=" ++ ".".intercalate (l.path.map (·.1)) ++ ":" ++ predicted l
+          | none => "ok arm=" ++ arm
+    | _, _ => "bad-case"
+
+end Disp
+
+namespace Util
+
+def sindAnswer (ws : List String) : String :=
+  match splitArrow ws with
+  | none => "bad-case"
+  | some (pre, post) =>
+    match pre.head?, kvOf pre "guard", kvOf pre "z", kvOf pre "src", kvOf pre "dest", kvOf post "out" with
+    | some ty, some g, some z, some src, some dest, some out =>
+      let zb := z == "1"
+      let arm := "sind-" ++ ty ++ "-" ++ g ++ (if zb then "-zero" else "-nonzero")
+      let failed := (sindClauses g zb src out).filter (fun c => !c.2)
+      if !failed.isEmpty then "propfail " ++ ",".intercalate (failed.map (·.1)) ++ " arm=" ++ arm
+      else if g == "?" then "diff arm=" ++ arm ++ " model=unknown-guard"
+      else
+        -- the regenerated arm, interpreted (`sindAssigns`); no arm for the type: nothing is assigned
+        let exp := if sindAssigns (if g == "none" then [] else [(ty, g)]) ty zb then src else dest
+        if out != exp then "diff arm=" ++ arm ++ " model=out:" ++ exp
+        else "ok arm=" ++ arm ++ (if g == "none" then " trivial" else "")
+    | _, _, _, _, _, _ => "bad-case"
+
+def parseArg (a : String) : Option DurJ :=
+  if a == "e" then some .empty else if a == "b" then some .bad
+  else if a.startsWith "o" then ((a.drop 1).toString.toInt?).map .ok else none
+
+def pdurAnswer (ws : List String) : String :=
+  match splitArrow ws with
+  | none => "bad-case"
+  | some (pre, post) =>
+    match kvOf pre "args", kvOf pre "cur", kvOf post "res", kvOf post "out" with
+    | some a, some c, some res, some o =>
+      let args := a.splitOn ","
+      let cur := c.splitOn ","
+      let out := o.splitOn ","
+      let arm := "pdur-" ++ toString args.length ++ "-" ++ res
+      let failed := (pdurClauses args cur out res).filter (fun c => !c.2)
+      if !failed.isEmpty then "propfail " ++ ",".intercalate (failed.map (·.1)) ++ " arm=" ++ arm
+      else match args.mapM parseArg, cur.mapM (·.toInt?) with
+        | some js, some cs =>
+          if js.length != cs.length then "bad-case" else
+          let r := parseDurations (js.zip cs)
+          let exp := "res=" ++ (if r.2 then "err" else "ok") ++ ";out=" ++ ",".intercalate (r.1.map toString)
+          if exp != "res=" ++ res ++ ";out=" ++ o then "diff arm=" ++ arm ++ " model=" ++ exp
+          else "ok arm=" ++ arm
+        | _, _ => "bad-case"
+    | _, _, _, _ => "bad-case"
+
+end Util
+
 /-- case kind `mgr`: the policy the model states (`Mgr.unknown_sections_policy`, `Mgr.display_hides_all_hidden`,
 `Mgr.dup_last_wins`): unknown components (objects and nulls) are kept by ToJSON, top-level keys that are no
 section group are dropped by json.Unmarshal, an undefined registered component is written with its defaults,
@@ -338,6 +532,11 @@ def mgrAnswer (ws : List String) : String :=
       | none => "ok arm=" ++ arm
 
 def answer (ws : List String) : String :=
+  if ws.head? == some "ident" then Ident.answer (ws.drop 1) else
+  if ws.head? == some "disp" then Disp.answer (ws.drop 1) else
+  if ws.head? == some "rlib" then Ident.rlibAnswer (ws.drop 1) else
+  if ws.head? == some "sind" then Util.sindAnswer (ws.drop 1) else
+  if ws.head? == some "pdur" then Util.pdurAnswer (ws.drop 1) else
   if ws.head? == some "mgr" then mgrAnswer (ws.drop 1) else
   if ws.head? == some "src" then Src.answer (ws.drop 1) else
   if ws.head? == some "val" then Val.answer (ws.drop 1) else
